@@ -4,7 +4,7 @@
    model/Ansatz.v give the semantics. *)
 From Coq Require Import List Bool Arith ZArith Reals.
 From QP Require Import Cx Asum FMat Apply Local Gates Rsem Conserve.
-From QPM Require Import Transpile Ansatz.
+From QPM Require Import Transpile Ansatz Realness RealPhase.
 From QPG Require Import blocks.
 Import ListNotations.
 
@@ -63,3 +63,57 @@ Qed.
 
 Example c15_example : In (2%nat, blk_a_gate) blocks_all /\ In ([1; 1]%Z, (2%nat, blk_single_excitation)) sz_obligations.
 Proof. split; vm_compute; tauto. Qed.
+
+(* ------------------------------------------------------------------ Z2 variant: parity *)
+(* every regenerated block - including the Rxx / RZ / Rxx block of Z2SymmetryPreservingReal, whose Pauli rotations are
+   replaced by the gates PauliRotationDecomposeTranspiler makes of them (that decomposition is proved in C01) - vanishes
+   between local configurations of different parity *)
+Theorem every_block_conserves_parity :
+  forallb (fun kb => check_conserve same_par (repeat 1%Z (fst kb)) (seq 0 (fst kb)) (map eg (snd kb))
+                     && forallb gate_ok (snd kb)) parity_blocks_all = true.
+Proof. vm_compute. reflexivity. Qed.
+
+Theorem z2_ansatz_circuits_conserve_parity : forall Q (blocks : list binst), NoDup Q ->
+  Forall (fun bi => In (bk bi, bt bi) parity_blocks_all /\ NoDup (bqs bi) /\ length (bqs bi) = bk bi /\ incl (bqs bi) Q) blocks ->
+  keeps c_num same_par Q (csem (concat (map binst_sem blocks))).
+Proof.
+  intros Q blocks HQ H. apply (circuit_of_blocks_keeps_sectors c_num same_par par_trans par_shift Q blocks HQ).
+  rewrite Forall_forall in *. intros bi Hbi. destruct (H bi Hbi) as [Hin [Hnd [Hlen Hincl]]].
+  pose proof every_block_conserves_parity as Hall. rewrite forallb_forall in Hall.
+  specialize (Hall _ Hin). cbn [fst snd] in Hall. apply andb_true_iff in Hall as [Hc Hok].
+  repeat split; auto. rewrite map_c_num, Hlen. exact Hc.
+Qed.
+Print Assumptions z2_ansatz_circuits_conserve_parity.
+
+(* ------------------------------------------------------------------ real-amplitude variants *)
+(* the blocks of SymmetryPreservingReal (SO(4) entangler) and Z2SymmetryPreservingReal have product matrices that are real
+   up to one phase, for all angles at once (decided on the Laurent-polynomial products: P[x][y] * conj P[x'][y'] is real) *)
+Theorem real_variant_blocks_are_real :
+  forallb (fun kb => check_real (seq 0 (fst kb)) (map eg (snd kb)) && forallb gate_ok (snd kb)) real_blocks_all = true.
+Proof. vm_compute. reflexivity. Qed.
+
+(* hence every circuit that is a sequence of these blocks - any number of layers, any entangler map, any angles, registers of
+   any size - maps real states to real states, up to one global phase factor *)
+Theorem real_variant_circuits_map_real_states_to_real_states : forall blocks : list binst,
+  Forall (fun bi => In (bk bi, bt bi) real_blocks_all /\ NoDup (bqs bi)) blocks ->
+  exists z, Cunit z /\ forall psi, real_state psi -> real_state (fun b => Cmul z (csem (concat (map binst_sem blocks)) psi b)).
+Proof.
+  intros blocks H. apply circuit_of_real_blocks_is_real_up_to_phase.
+  rewrite Forall_forall in *. intros bi Hbi. destruct (H bi Hbi) as [Hin Hnd].
+  pose proof real_variant_blocks_are_real as Hall. rewrite forallb_forall in Hall.
+  specialize (Hall _ Hin). cbn [fst snd] in Hall. apply andb_true_iff in Hall as [Hc Hok].
+  repeat split; auto.
+Qed.
+Print Assumptions real_variant_circuits_map_real_states_to_real_states.
+
+(* the SO(4) entangler consists of CNOT and RY gates only: for SymmetryPreservingReal the statement holds exactly (z = 1) *)
+Theorem so4_circuits_map_real_states_to_real_states : forall blocks : list binst,
+  Forall (fun bi => real_gatesb (bt bi) = true) blocks ->
+  forall psi, real_state psi -> real_state (csem (concat (map binst_sem blocks)) psi).
+Proof.
+  induction 1 as [|bi blocks Hbi _ IH]; intros psi Hp; [exact Hp|].
+  cbn [map concat]. rewrite csem_app. apply IH. unfold binst_sem.
+  apply real_gates_keep_states_real; assumption.
+Qed.
+Theorem so4_block_has_real_gates : real_gatesb blk_so4 = true.
+Proof. reflexivity. Qed.
